@@ -52,7 +52,15 @@ func blockToLines(b deps.Block) []Line {
 func (l Lines) Len() int         { return len(l.lines) }
 func (l Lines) Index(i int) Line { return l.lines[i] }
 
+// validLine checks that lineIdx is an index of an existing line.
+func (l Lines) validLine(lineIdx int) bool { return lineIdx >= 0 && lineIdx < len(l.lines) }
+
+// SetMark marks line lineIdx by m. Line index out of range is ignored.
 func (l *Lines) SetMark(lineIdx int, m Mark) {
+	if !l.validLine(lineIdx) {
+		return
+	}
+
 	l.lines[lineIdx].setMark(m)
 	l.marks[lineIdx] = struct{}{}
 }
@@ -82,6 +90,13 @@ func (l *Lines) reloadRange(from int, to int) {
 }
 
 func (l *Lines) Move(fromLine int, toLine int) error {
+	if !l.validLine(fromLine) {
+		return fmt.Errorf("from is not a line of the listing: %d", fromLine)
+	}
+	if !l.validLine(toLine) {
+		return fmt.Errorf("to is not a line of the listing: %d", toLine)
+	}
+
 	from, to := l.Index(fromLine), l.Index(toLine)
 
 	fromBlock, fromBlockOK := from.Block()
@@ -123,6 +138,10 @@ func (l *Lines) Move(fromLine int, toLine int) error {
 }
 
 func (l Lines) Block(lineIdx int) (deps.Block, bool) {
+	if !l.validLine(lineIdx) {
+		return deps.Block{}, false
+	}
+
 	idx, ok := l.lines[lineIdx].Block()
 	if !ok {
 		return deps.Block{}, false
